@@ -2161,3 +2161,141 @@ Proof.
           congruence. }
         destruct (leqb w (str "sudo")); exact Hno.
 Qed.
+
+(** ** Arguments of a command *)
+
+Lemma next_argument_stream : forall E a r, Stream a r -> arg_count a < 255 ->
+  match words r with
+  | [] => @next_argument_str E a = Ok (None, a)
+  | w :: ws => exists a', @next_argument_str E a = Ok (Some w, a') /\ Stream a' (after_word r) /\
+                          words (after_word r) = ws /\ arg_count a' = arg_count a + 1
+  end.
+Proof.
+  intros E a r Hs Hlt. unfold next_argument_str. pose proof (next_token_stream E a r Hs) as Ht.
+  destruct (words r) as [|w ws].
+  - rewrite Ht. reflexivity.
+  - destruct Ht as (a1 & -> & Hs1 & Ew & Hc). simpl bind. cbv iota beta.
+    destruct (N.leb_spec (arg_count a1 + 1) 255); [|lia].
+    eexists. split; [reflexivity|]. split; [|split; [exact Ew|simpl; lia]].
+    destruct Hs1 as [Hn Hp]. split; assumption.
+Qed.
+
+(** What is done with one argument token. *)
+Definition P_int (w : list N) : res aerr Z :=
+  do _ <- check_naive_type [NInteger] w;
+  do io <- map_err InvalidValue (parse_integer w false);
+  match io with
+  | Some i => map_err InvalidValue (as_u16_cast i)
+  | None => Err (InvalidValue MalformedValue)
+  end.
+
+Definition P_mem (w : list N) : res aerr memloc :=
+  do _ <- check_naive_type [NInteger; NLabel; NPCOffset] w;
+  do mo <- map_err InvalidValue (memory_location_try_parse w);
+  match mo with
+  | Some m => Ok m
+  | None => Err (InvalidValue MalformedValue)
+  end.
+
+Definition P_loc (w : list N) : res aerr location :=
+  do lo <- map_err InvalidValue (location_try_parse w);
+  match lo with
+  | Some l => Ok l
+  | None => Err (InvalidValue MalformedValue)
+  end.
+
+Lemma P_int_iff : forall w v, P_int w = Ok v <-> ValueSyn w v.
+Proof.
+  intros w v. rewrite <- value_arg_iff. unfold P_int. split.
+  - intros H. destruct (check_naive_type [NInteger] w) as [[]|e|p|q]; simpl in H; try discriminate.
+    split; [reflexivity|].
+    destruct (parse_integer w false) as [[i|]|e|p|q]; simpl in H; try discriminate.
+    exists i. split; [reflexivity|]. destruct (as_u16_cast i); simpl in H; try discriminate.
+    inversion H; reflexivity.
+  - intros [Hc (x & Hp & Hx)]. rewrite Hc, Hp. simpl. rewrite Hx. reflexivity.
+Qed.
+
+Lemma P_mem_iff : forall w m, P_mem w = Ok m <-> MemLocSyn w m.
+Proof.
+  intros w m. rewrite <- memloc_iff. unfold P_mem. split.
+  - intros H. destruct (check_naive_type _ w) as [[]|e|p|q]; simpl in H; try discriminate.
+    split; [reflexivity|].
+    destruct (memory_location_try_parse w) as [[x|]|e|p|q]; simpl in H; try discriminate.
+    inversion H; reflexivity.
+  - intros [Hc Hm]. rewrite Hc, Hm. reflexivity.
+Qed.
+
+Lemma P_loc_iff : forall w l, P_loc w = Ok l <-> LocSyn w l.
+Proof.
+  intros w l. rewrite <- location_iff. unfold P_loc. split.
+  - intros H. destruct (location_try_parse w) as [[x|]|e|p|q]; simpl in H; try discriminate.
+    inversion H; reflexivity.
+  - intros Hl. rewrite Hl. reflexivity.
+Qed.
+
+Lemma next_integer_or_stream : forall a r d, Stream a r -> arg_count a < 255 ->
+  match words r with
+  | [] => next_integer_or a d = (do x <- d; Ok (x, a))
+  | w :: ws => exists a', Stream a' (after_word r) /\ words (after_word r) = ws /\
+                          arg_count a' = arg_count a + 1 /\
+                          next_integer_or a d = (do x <- P_int w; Ok (x, a'))
+  end.
+Proof.
+  intros a r d Hs Hlt. unfold next_integer_or. pose proof (next_argument_stream aerr a r Hs Hlt) as Ht.
+  destruct (words r) as [|w ws].
+  - rewrite Ht. reflexivity.
+  - destruct Ht as (a' & -> & Hs' & Ew & Hc). exists a'. split; [exact Hs'|]. split; [exact Ew|]. split; [exact Hc|].
+    cbn [bind]. unfold P_int.
+    destruct (check_naive_type [NInteger] w) as [[]|e|p|q]; simpl; try reflexivity.
+    destruct (parse_integer w false) as [[i|]|e|p|q]; simpl; try reflexivity.
+    all: try (destruct (as_u16_cast i); reflexivity).
+Qed.
+
+Lemma next_memory_location_or_stream : forall a r d, Stream a r -> arg_count a < 255 ->
+  match words r with
+  | [] => next_memory_location_or a d = (do x <- d; Ok (x, a))
+  | w :: ws => exists a', Stream a' (after_word r) /\ words (after_word r) = ws /\
+                          arg_count a' = arg_count a + 1 /\
+                          next_memory_location_or a d = (do x <- P_mem w; Ok (x, a'))
+  end.
+Proof.
+  intros a r d Hs Hlt. unfold next_memory_location_or.
+  pose proof (next_argument_stream aerr a r Hs Hlt) as Ht.
+  destruct (words r) as [|w ws].
+  - rewrite Ht. reflexivity.
+  - destruct Ht as (a' & -> & Hs' & Ew & Hc). exists a'. split; [exact Hs'|]. split; [exact Ew|]. split; [exact Hc|].
+    cbn [bind]. unfold P_mem.
+    destruct (check_naive_type _ w) as [[]|e|p|q]; simpl; try reflexivity.
+    destruct (memory_location_try_parse w) as [[i|]|e|p|q]; reflexivity.
+Qed.
+
+Lemma next_location_or_stream : forall a r d, Stream a r -> arg_count a < 255 ->
+  match words r with
+  | [] => next_location_or a d = (do x <- d; Ok (x, a))
+  | w :: ws => exists a', Stream a' (after_word r) /\ words (after_word r) = ws /\
+                          arg_count a' = arg_count a + 1 /\
+                          next_location_or a d = (do x <- P_loc w; Ok (x, a'))
+  end.
+Proof.
+  intros a r d Hs Hlt. unfold next_location_or.
+  pose proof (next_argument_stream aerr a r Hs Hlt) as Ht.
+  destruct (words r) as [|w ws].
+  - rewrite Ht. reflexivity.
+  - destruct Ht as (a' & -> & Hs' & Ew & Hc). exists a'. split; [exact Hs'|]. split; [exact Ew|]. split; [exact Hc|].
+    cbn [bind]. unfold P_loc.
+    destruct (location_try_parse w) as [[i|]|e|p|q]; reflexivity.
+Qed.
+
+Lemma finish_stream : forall a r n c, Stream a r -> arg_count a < 254 ->
+  finish a n c = match words r with
+                 | [] => Ok c
+                 | _ :: _ => Err (TooManyArguments n (arg_count a + 1))
+                 end.
+Proof.
+  intros a r n c Hs Hlt. unfold finish. destruct (N.leb_spec (arg_count a + 1) 255); [|lia].
+  unfold expect_end. assert (Hlt' : arg_count a < 255) by lia.
+  pose proof (next_argument_stream aerr a r Hs Hlt') as Ht.
+  destruct (words r) as [|w ws].
+  - rewrite Ht. reflexivity.
+  - destruct Ht as (a' & -> & _). reflexivity.
+Qed.
